@@ -99,9 +99,10 @@ pub fn c17(ctx: &mut Ctx, _tier: &str, _r: &mut Rng, js: &[Value], _reqs: &[Stri
         prev = Some(cur);
     }
     ctx.exhaustive = true;
+    ctx.nontrivial_extra = RD_MAX as u64; // every date is a distinct instance of the quantifier
     // all dates are distinct and non-trivial (each is a separate instance of the quantifier)
     for k in 0..4 {
-        ctx.sample(json!({"rd": 1 + k * 1217353, "date": ymd(1 + k * 1217353), "hijri": format!("{:?}", islamic_from_fixed(1 + k * 1217353))}));
+        ctx.sample(json!({"rd": 1 + k * 1217352, "date": ymd(1 + k * 1217352), "hijri": format!("{:?}", islamic_from_fixed(1 + k * 1217352))}));
     }
     let n = RD_MAX as usize;
     ctx.finish(json!({"month_lengths_seen": lens, "dates": n}));
